@@ -175,9 +175,57 @@ class Recorder:
         else:
             tgt = c.callee
         cb = self.prog.bodies.get((b.crate, tgt, -1)) if tgt else None
-        if cb is not None and tgt in self._clears and not any("bool" == (cb.local_ty(l) or "") for l in range(1, cb.arg_count + 1)):
+        if cb is None or tgt not in self._clears:
+            return None
+        params = [cb.local_ty(l) or "" for l in range(2 if cb.kind == "Closure" else 1, cb.arg_count + 1)]
+        enums = [t_ for t_ in params if (self.prog.adt(t_, b.crate) or {}).get("kind") == "enum"]
+        if "bool" not in params and not enums:
             return self._clears[tgt]
+        if len(enums) == 1 and "bool" not in params:
+            return self._sync_kind_by_variant(c, cb, enums[0])
         return None
+
+    def _sync_kind_by_variant(self, c, cb, enum_ty):
+        """The phase is named by a two-variant enum (`SyncPoint::SampleStart` / `SampleEnd`) instead of a bool: the variant
+        passed here, and whether the implementation clears the tally on the paths that variant selects (lib/patheval)."""
+        from lib.patheval import PathEval
+        b = self.body
+        adt = self.prog.adt(enum_ty, b.crate)
+        names = [v["name"] for v in adt["variants"]]
+        k = (c.args[1] if c.is_fn_trait_call and len(c.args) >= 2 else None)
+        cands = [k] if k is not None else [a for a in c.args]
+        passed = set()
+        for a in cands:
+            for z in b.prov.op_src(a):
+                if z.kind == "variant" and str(z.a).rsplit("::", 1)[0].endswith(enum_ty.rsplit("::", 1)[-1]) and str(z.a).rsplit("::", 1)[-1] in names:
+                    passed.add(names.index(str(z.a).rsplit("::", 1)[-1]))
+        if len(passed) != 1:
+            return None
+        vi = list(passed)[0]
+        # the body that dispatches on the enum: the callable itself or the one function it forwards the value to
+        bodies, _e, _i = self.prog.callee_closure([cb], crate=b.crate)
+        impl = [x for x in bodies if any((x.local_ty(base) or "").endswith(enum_ty) for _bi, _t, base in __import__("lib.tables", fromlist=["x"]).discr_switches(x))]
+        ab = getattr(self.prog, "_absorbed", ())
+        impl = [x for x in impl if (x.crate, x.path) not in ab]
+        if cb in impl:
+            impl = [cb]      # the helper that dispatches was spliced into the callable itself
+        if len(impl) != 1:
+            return None
+        x = impl[0]
+        sums = PathEval(x, max_paths=2000).run()
+        if not sums:
+            return None
+        clears = False
+        for sm in sums:
+            ok = True
+            for a, pol in sm.conds:
+                if a[0] == "discr" and "('arg'," in str(a[1]) and (x.local_ty(a[1][1]) if a[1][0] == "arg" and not a[1][2] else "").endswith(enum_ty):
+                    v = a[2]
+                    sel = (set(range(len(names))) - {int(q) for q in v[6:].split(",") if q}) if isinstance(v, str) and v.startswith("other:") else {int(v)}
+                    ok = ok and ((vi in sel) == pol)
+            if ok and any(cl[0].endswith("ThreadAllocInfo::clear") for cl in sm.calls):
+                clears = True
+        return clears
 
     def _label(self, p):
         """zst / slots / inputs, from the iterator type of the timed loop."""
@@ -430,3 +478,18 @@ def slots_result_variants(prog, crate="divan"):
                 return {}
             out[kind] = (rv.get("variant"), rv.get("vi"))
     return out if set(out) == {"slots", "inputs"} else {}
+
+
+def pure_waiter(prog, body, c):
+    """The call `c` in `body` goes to a local closure / function that does nothing but wait on the barrier it is given
+    (`if let Some(b) = barrier { b.wait() }` factored out): for the order of waits and clears it is a wait."""
+    tgt = None
+    if c.is_fn_trait_call:
+        nm = c.name
+        tgt = prog.bodies.get((body.crate, nm, -1)) if "{closure#" in (nm or "") else None
+    else:
+        tgt = prog.bodies.get((body.crate, c.callee, -1))
+    if tgt is None or tgt is body:
+        return False
+    names = [x.callee for x in tgt.live_calls()]
+    return bool(names) and set(names) == {"std::sync::Barrier::wait"} and not tgt.loops
